@@ -103,6 +103,7 @@ def run(case, family):
         res.tags['session_events'].add(f)
     res.stats['session_frames'] += S.frames_run
     res.stats['session_invariant_sweeps'] += S.sweeps
+    res.stats['session_invariant_reads_inside_callbacks'] += S.inside_reads
     res.sample = {'frames_run': S.frames_run, 'flags': sorted(S.flags),
                   'restarts': S.restarts}
     return res
@@ -132,6 +133,7 @@ class _Session:
         self.armed = None
         self.stranded = set()       # worlds whose release was interrupted
         self.release_cut = set()    # ... for certain (seen by the harness)
+        self.inside_reads = 0
         self.releasing = None
         self.in_toggle = False
         self.fault = None
@@ -150,10 +152,12 @@ class _Session:
         def on_add(self, entity, world):
             S.life[self.uid].append('add')
             self.owner = (entity, world)
+            S.inside_callback(world, 'inside an on_add')
 
         def on_remove(self, entity, world):
             S.life[self.uid].append('remove')
             self.owner = None
+            S.inside_callback(world, 'inside an on_remove')
             S.armed_act(self, entity, world)
 
         def ping(self, token):
@@ -588,9 +592,27 @@ class _Session:
                       f'quiescent point ({when}): {type(ex).__name__}: {ex}',
                       'no exception', repr(ex))
 
-    def inv_tables(self, w, when):
+    def inside_callback(self, world, when):
+        """The queries tell one story also when a callback looks: both
+        tables are updated before the library calls out."""
+        if self.family not in ('C01', '*') or self.res.divs \
+                or not hasattr(world, 'uid'):
+            return
+        self.inside_reads += 1
+        try:
+            self.inv_tables(world, when, inside=True)
+        except Exception as ex:
+            self.fail('*', 'query-raised', f'a read-only query raised '
+                      f'{when}: {type(ex).__name__}: {ex}', 'no exception',
+                      repr(ex))
+
+    def inv_tables(self, w, when, inside=False):
         rows = {}
         ids = set(w.entities) | set(self.pending[w.uid])
+        if inside:
+            # (inside a callback the harness' own list of entities awaiting
+            # deletion may be behind: whoever get(object) names is looked at)
+            ids |= {e for e, _ in w.get(object)}
         for e in ids:
             comps = w.get_components(e)
             if comps:
@@ -604,7 +626,10 @@ class _Session:
                           [w.entity_exists(e), e in rows])
                 return
         for cls in self.classes + [object]:
-            got = collections.Counter((repr(e), id(c)) for e, c in w.get(cls))
+            answer = w.get(cls)
+            got = collections.Counter((repr(e), id(c)) for e, c in answer)
+            if isinstance(answer, list):
+                del answer[:]       # the caller's own list
             want = collections.Counter(
                 (repr(e), id(c)) for e, cs in rows.items() for c in cs
                 if isinstance(c, cls))
